@@ -27,7 +27,10 @@ ASSUMPTIONS = [
     "table oracles are written from the documented meaning of each option, independent of nanoemoji's code",
 ]
 
+PAIR_GM = "zz_glyphmap"  # a second glyph-map generator (own glyph names) for part A
+
 PAIR_OPTS = [
+    "glyphmap_generator",
     "clip_to_viewbox", "clip_to_viewbox", "bitmap_resolution", "use_pngquant", "use_zopflipng", "pngquant_flags",
     "reuse_tolerance", "upem", "ascender", "descender", "width", "keep_glyph_names", "pretty_print", "transform",
     "clipbox_quantization", "family", "version_major", "color_format", "color_format", "linegap",
@@ -68,6 +71,10 @@ def gen_pair(seed, idx):
         for name in differing:
             if name == "color_format":
                 continue
+            if name == "glyphmap_generator":
+                if i % 2 == 1:
+                    o[name] = PAIR_GM
+                continue
             vals = gen.OPTION_VALUES[name]
             o[name] = vals[i % len(vals)] if i < 2 else r.choice(vals)
         o["output_file"] = "F%d%s" % (i, gen.ext_for(o["color_format"]))
@@ -78,6 +85,10 @@ def gen_pair(seed, idx):
             share = paths[:1] + share  # every configuration shares the first source
         cfgs.append({"opts": o, "srcs": sorted(share), "toml": "c%d.toml" % i})
     ops = [{"op": "write", "path": p, "content": c} for p, c, _ in srcs]
+    gm_env = None
+    if "glyphmap_generator" in differing:
+        ops.append({"op": "write", "path": "$SIDE/gm/%s.py" % PAIR_GM, "content": "text:" + MY_GLYPHMAP, "keep": True})
+        gm_env = {"PYTHONPATH": "$SIDE/gm"}
     for c in cfgs:
         ops.append({"op": "write", "path": c["toml"], "content": "text:" + gen.toml_config(c["opts"], c["srcs"]), "keep": True})
     rs = gen.rng(seed, "c20A", idx, "sched")
@@ -96,6 +107,10 @@ def gen_pair(seed, idx):
         ops.append({"op": "rename", "src": "build", "dst": "build.aside%d" % i, "keep": True})
         ops.append({"op": "invoke", "cwd": ".", "argv": [c["toml"]], "build_dir": "build", "label": "solo%d" % i,
                     "sched": {"j": 1, "policy": "manifest", "seed": 0, "exec_at": "finish"}, "final": True})
+    if gm_env:
+        for op in ops:
+            if op["op"] == "invoke":
+                op["env"] = gm_env
     cid = "c20A-%d-%d" % (seed, idx)
     job = {"id": cid + ".j0", "root_id": "c20/%d/A%d" % (seed, idx), "hashseed": H(seed, "c20A", idx, "hs") % 4294967296,
            "clock_seed": idx, "readdir_seed": H(seed, "c20A", idx, "rd") % (1 << 31), "keep_trace": False, "ops": ops}
@@ -181,9 +196,10 @@ B_SOURCES = {
     "src/emoji_u1f600.svg": {"kind": "rects", "n": 3, "seed": 5, "viewbox": [0, 0, 200, 100]},
     "src/emoji_u1f469_200d_1f91d.svg": {"kind": "shared", "n": 3, "seed": 1, "viewbox": [0, 0, 100, 100]},
     "src/emoji_u42.svg": "corpus:reused_shape.svg",
+    "src/emoji_u43.svg": "text:<svg xmlns=\"http://www.w3.org/2000/svg\" viewBox=\"0 0 100 100\"><defs><linearGradient id=\"g\" x1=\"10\" y1=\"10\" x2=\"90\" y2=\"60\" gradientUnits=\"userSpaceOnUse\"><stop offset=\"0\" stop-color=\"red\"/><stop offset=\"1\" stop-color=\"blue\"/></linearGradient></defs><rect x=\"10\" y=\"10\" width=\"80\" height=\"50\" fill=\"url(#g)\"/></svg>",
 }
-B_VIEWBOX = {"A": (100, 100), "g_1f600": (200, 100), "g_1f469_200d_1f91d": (100, 100), "B": (128, 128)}
-B_CPS = {"A": (0x41,), "g_1f600": (0x1F600,), "g_1f469_200d_1f91d": (0x1F469, 0x200D, 0x1F91D), "B": (0x42,)}
+B_VIEWBOX = {"A": (100, 100), "g_1f600": (200, 100), "g_1f469_200d_1f91d": (100, 100), "B": (128, 128), "C": (100, 100)}
+B_CPS = {"A": (0x41,), "g_1f600": (0x1F600,), "g_1f469_200d_1f91d": (0x1F469, 0x200D, 0x1F91D), "B": (0x42,), "C": (0x43,)}
 
 B_FIELDS = {
     # field: (values, formats it is observable in or None for all)
@@ -513,6 +529,16 @@ def judge_single(case, res):
                 if len(moved) != len(total):
                     out.append({"class": "option-not-reflected", "detail": {"part": "B", "field": "transform", "oracle": "transform->glyph placement", "mode": mode,
                                                                             "value": m["value"], "fmt": m["fmt"], "got_want": [len(moved), len(total)]}})
+            gb, gv = ins["base"]["info"].get("colr_gradients") or {}, i["info"].get("colr_gradients") or {}
+            for g in gb:
+                if g not in gv or gb[g]["transformed"] or gv[g]["transformed"] or [c[0] for c in gb[g]["coords"]] != [c[0] for c in gv[g]["coords"]]:
+                    continue  # only comparable when both trees hold the gradient in font space with the same structure
+                for cbase, cvar in zip(gb[g]["coords"], gv[g]["coords"]):
+                    idx_xy = {4: ((1, 2), (3, 4), (5, 6)), 5: ((1, 2), (3, 4), (5, 6)), 6: ((1, 2), (4, 5)), 7: ((1, 2), (4, 5)), 8: ((1, 2),), 9: ((1, 2),)}[cbase[0]]
+                    if any(abs(cvar[ix] - cbase[ix] - dx) > 1 or abs(cvar[iy] - cbase[iy] - dy) > 1 for ix, iy in idx_xy):
+                        out.append({"class": "option-not-reflected", "detail": {"part": "B", "field": "transform", "oracle": "transform->gradient geometry", "mode": mode,
+                                                                                "value": m["value"], "fmt": m["fmt"], "got_want": [g, cbase, cvar, [dx, dy]]}})
+                        break
             cb, cv = ins["base"]["info"].get("clips") or {}, i["info"].get("clips") or {}
             if m["fmt"].endswith("colr_1") and cb:
                 q = m["var"].get("clipbox_quantization") or int(round(m["var"].get("upem", 1024) * 0.02))
